@@ -18,6 +18,7 @@ pub struct Plan {
     pub sanitize: bool,
     pub skip: u8,                  // 0 off, 1 principal = address in a mapping, 2 principal in no mapping, 3 on without address
     pub napp: usize,
+    pub user_maps: Vec<(u64, u64, String, Vec<u8>)>,   // caller-supplied mappings (start, size, name, identifier)
 }
 
 pub fn maps_tokens(l: &mut Line, w: &World) {
@@ -54,7 +55,7 @@ pub fn gen_plan(rng: &mut Rng, focus: &str, tier: &str, case_idx: u64) -> Plan {
     let blame_late = focus == "c06" && many && rng.chance(1, 2);
     Plan { scen: Scenario { threads, lines }, blame_late, crash: if blame_late { 2 } else if force_k1 { 3 } else if focus == "c05" || focus == "c07" { rng.below(4) as u8 } else if rng.chance(1, 3) { rng.range(1, 2) as u8 } else { 0 },
            limit: if blame_late { Some(1) } else if focus == "c06" { if rng.chance(2, 3) { Some(*rng.pick(&[1u64, 1000, 100_000, 200_000, 300_000, 1 << 30])) } else { None } } else if rng.chance(1, 6) { Some(1) } else { None },
-           sanitize: rng.chance(1, if focus == "c12" { 1 } else { 5 }),
+           sanitize: rng.chance(1, if focus == "c12" { 1 } else { 5 }), user_maps: vec![],
            skip: if focus == "c20" { rng.range(1, 3) as u8 } else if rng.chance(1, 8) { 1 } else { 0 }, napp }
 }
 
@@ -89,6 +90,12 @@ pub fn configure(rng: &mut Rng, plan: &Plan, target: &Target) -> Configured {
         if plan.skip == 1 { principal = Some(if rng.chance(1, 2) { anon[0] + 0x100 } else { target.fact_hex("blk") }); }
         if plan.skip == 2 { principal = Some(0x10); }
         if let Some(p) = principal { writer.set_principal_mapping_address(p as usize); }
+    }
+    if !plan.user_maps.is_empty() {
+        use minidump_writer::maps_reader::{MappingEntry, MappingInfo, SystemMappingInfo};
+        writer.set_user_mapping_list(plan.user_maps.iter().map(|(s, sz, n, id)| MappingEntry { mapping: MappingInfo { start_address: *s as usize, size: *sz as usize,
+            system_mapping_info: SystemMappingInfo { start_address: *s as usize, end_address: (*s + *sz) as usize }, offset: 0,
+            permissions: procfs_core::process::MMPermissions::READ | procfs_core::process::MMPermissions::EXECUTE, name: Some(n.into()) }, identifier: id.clone() }).collect());
     }
     let mut app = Vec::new();
     for f in target.facts_with_prefix("app") { if let Some((a, n)) = f.split_once(':') { app.push((u64::from_str_radix(a, 16).unwrap(), n.parse::<usize>().unwrap())); } }
